@@ -1,4 +1,4 @@
-(* Finding C18/2 (D17, FIXED by repo commit 6b80c18): before the fix BlockchainRpcTxWatcher.HandleCsvTx called the CSV callback while holding
+(* Finding C18/2 (D17, FIXED by repo commit c618ab0): before the fix BlockchainRpcTxWatcher.HandleCsvTx called the CSV callback while holding
    the watcher's mutex; the callback takes the swap's mutex (SendEvent).  In the other order, an event handler holds
    the swap's mutex while its action registers with the watcher (AddWaitForCsvTx takes the watcher's mutex).
      f0 HandleCsvTx     : Acq W; Call f1; Rel W        (W = txwatcher.BlockchainRpcTxWatcher.Mutex, lock 1)
